@@ -17,9 +17,9 @@ LEVEL = "exploration"
 RULE = ("Pairs of terms (T1,T2). Bounded-exhaustive: all ordered pairs from three universes -- WIDE: every term "
         "of size <= 3 over leaves {a, b, 1, 1.0, 'q a', \"s\", [], V0, V1, V2} and f/1, g/2, list cells (230 terms); "
         "DEEP: every term of size <= 5 (thorough: <= 6) over {a, V0, V1, V2}, f/1, g/2 (308 / 1112 terms); LISTS: every "
-        "list-cell term of size <= 5 over {[], a, V0, V1} (148 terms); the quick tier takes a seed-dependent 1-in-N "
+        "list-cell term of size <= 5 over {[], a, V0, V1} (148 terms); the quick tier takes a seed-dependent 1-in-16 "
         "sample of the pairs. Random: Hypothesis terms up to depth 4 over a larger signature (also -1, 0, 2.5, '1', "
-        "'A', quoted a, \"a\", h/3, 'q a'/1, lists with tails, 4 variables), half of the pairs independent and half "
+        "'A', quoted a, \"a\", h/3, 'q a'/1, lists with tails, 4 variables), one third of the pairs independent, two thirds "
         "obtained by replacing subterms of a common base term by variables (so that most of them unify). Each pair "
         "is run as `T1 = T2` and `T1 \\= T2` in a clause body with shared variables (sub-check builtin) and as a "
         "call T2 against a head T1 whose variables are renamed apart: fact, clause with body, the same with every "
@@ -28,7 +28,7 @@ RULE = ("Pairs of terms (T1,T2). Bounded-exhaustive: all ordered pairs from thre
         "answers are compared with the instance of the clause's variables under the mgu modulo a bijective "
         "renaming of variables. Non-trivial: the mgu binds >= 2 variables and one binding mentions another bound "
         "variable (triangular form of depth >= 2), or the pair is an occurs-check case. Distinct = distinct "
-        "(sub-check, T1, T2).")
+        "pair (T1,T2); a pair that is run by both sub-checks counts once.")
 ASSUMPTIONS = [
     "pbt/ref/unify.py (Robinson with occurs check, cross-checked against a union-find unifier on every case) is "
     "the definition of 'has a most general unifier'",
